@@ -153,6 +153,9 @@ def profile_C03(g, tier):
     fam = scen["families"]
     if g.chance("populate3", 0.5):
         fam["p_pop_shared"] = g.pick("ppop", [0.3, 0.6, 0.9])
+    if scen["params"].get("max_tries") and g.chance("lost3", 0.3):
+        # a result that never arrives keeps its worker polling for minutes while the others go on with the budget
+        fam["p_lost"] = g.pick("p_lost3", [0.15, 0.3])
     if g.chance("scoped-retries", 0.25):
         # separate reuse scopes with different pool contents and retries: every scope decides for itself
         scen["nets"] = g.pick("snets", ["cluster1.net6 cluster2.net6", "cluster1.net6 cluster1.net8 cluster2.net7",
@@ -243,6 +246,9 @@ def profile_C02(g, tier):
     elif kind == "populate":
         fam["p_pop_shared"] = g.pick("ppop", [0.3, 0.7])
         fam["p_fail"] = g.pick("p_fail", [0.0, 0.2])
+    if kind != "dry" and g.chance("scope2", 0.2):
+        # the run must end and execute everything under every legal pool scope
+        scen["params"]["pool_scope"] = g.pick("pool_scope2", ["own shared", "own swarm shared", "own", "swarm cluster shared"])
     return scen
 
 
@@ -279,6 +285,10 @@ def profile_C10(g, tier):
             scen["params"]["rerun_status"] = g.pick("rerun", ["fail", "fail error", "pass", "fail error unknown", "warn error"])
         if g.chance("mct", 0.3):
             scen["params"]["max_concurrent_tries"] = g.pick("mctv", ["1", "2"])
+        if g.chance("both", 0.3):
+            # both criteria at once: rerun while every status is in the rerun set and none in the stop set
+            scen["params"].setdefault("rerun_status", g.pick("rerun2", ["fail", "fail error", "fail error warn", "pass fail"]))
+            scen["params"].setdefault("stop_status", g.pick("stop2", ["pass", "error", "pass warn", "skip"]))
     elif kind == "invalid":
         combo = g.pick("invalid", [{"max_tries": "-1"}, {"max_tries": "-32"}, {"max_tries": "hey"}, {"max_tries": "2.5"},
                                    {"max_tries": "3", "stop_status": "invalid"}, {"max_tries": "3", "rerun_status": "passed"},
@@ -292,6 +302,8 @@ def profile_C10(g, tier):
         scen["epochs"] = [first, {"replay": "job0"}]
         if g.chance("replay_tries", 0.3):
             scen["epochs"][1]["params"] = {"max_tries": g.pick("rmt", ["1", "3"])}
+        if g.chance("replay_stop", 0.25):
+            scen["epochs"][1].setdefault("params", {})["stop_status"] = g.pick("rstop", ["error", "skip", "pass"])
         if g.chance("cleanup", 0.4):
             scen["epochs"][1]["world_ops"] = [{"op": "cleanup", "p": 0.4, "pools": "all"}]
         if g.chance("two_jobs", 0.35):
